@@ -50,6 +50,11 @@ Table == <<
   Row("categorical", "pos", <<[vec |-> <<LnP(Q(1, 2)), LnP(Q(1, 4)), LnP(Q(1, 4))>>]>>, R(0), LnRat(1, 2)),
   Row("categorical", "pos", <<[vec |-> <<LnP(Q(1, 2)), LnP(Q(1, 4)), LnP(Q(1, 4))>>]>>, R(2), LnRat(1, 4)),
   Row("categorical", "pos", <<[vec |-> <<LnP(R(1)), LnP(R(3))>>]>>, R(1), LnRat(3, 4)),            \* unnormalised logits (0, ln 3)
+  (* batched parameters: one distribution per row / coordinate; the row's log density is the sum over the batch *)
+  Row("categorical", "pos", <<[mat |-> <<<<LnP(R(4)), LnP(R(1)), LnP(R(1))>>, <<LnP(R(1)), LnP(R(1)), LnP(R(2))>>>>]>>, [vec |-> <<R(0), R(2)>>],
+      XAdd(LnRat(2, 3), LnRat(1, 2))),
+  Row("bernoulli", "pos", <<[vec |-> <<LnP(R(3)), LnP(Q(1, 3))>>]>>, [vec |-> <<R(1), R(1)>>], XAdd(LnRat(3, 4), LnRat(1, 4))),
+  Row("normal", "pos", <<[vec |-> <<R(0), R(1)>>], R(1)>>, [vec |-> <<R(1), R(1)>>], XAdd(NormalLP(R(1), R(0), R(1)), NormalLP(R(1), R(1), R(1)))),
   Row("geometric", "kw:probs", <<Q(1, 4)>>, R(2), LnRat(9, 64)),                                   \* failures before the first success
   Row("geometric", "kw:probs", <<Q(1, 4)>>, R(0), LnRat(1, 4)),
   Row("geometric", "pos", <<LnP(Q(1, 3))>>, R(1), LnRat(3, 16)),                                   \* first positional = logits
